@@ -49,21 +49,93 @@ def _obj_full(shape, val):
     return a
 
 
+MODEL_REAL_DTYPE = [True]
+
+
+def _realify(v):
+    """what numpy's casting to a real floating dtype keeps of a value: its real part"""
+    if isinstance(v, Sym):
+        return v if v.is_real else SymR(v.re)
+    if isinstance(v, complex):
+        return v.real
+    if isinstance(v, numpy.ndarray):
+        if v.dtype == object:
+            out = numpy.empty(v.shape, dtype=object)
+            for idx in numpy.ndindex(*v.shape):
+                out[idx] = _realify(v[idx])
+            return out
+        if v.dtype.kind == "c":
+            return _REAL["real"](v)
+        return v
+    if isinstance(v, (list, tuple)):
+        return _realify(numpy.asarray(v, dtype=object if core.has_sym(v) else None))
+    return v
+
+
+class RealObjArray(numpy.ndarray):
+    """object array standing for an array that the code created with an explicit REAL floating dtype:
+    storing into it keeps only the real part (numpy's cast, which merely warns).  Results of arithmetic
+    are ordinary object arrays; views and copies stay real."""
+
+    def __setitem__(self, key, value):
+        numpy.ndarray.__setitem__(self, key, _realify(value))
+
+    def __array_ufunc__(self, ufunc, method, *inputs, out=None, **kwargs):
+        base = [x.view(numpy.ndarray) if isinstance(x, RealObjArray) else x for x in inputs]
+        if out is not None:
+            targets = out
+            bout = tuple(x.view(numpy.ndarray) if isinstance(x, RealObjArray) else x for x in out)
+            res = getattr(ufunc, method)(*base, out=bout, **kwargs)
+            for t in targets:
+                if isinstance(t, RealObjArray):
+                    tb = t.view(numpy.ndarray)
+                    for idx in numpy.ndindex(*tb.shape):
+                        tb[idx] = _realify(tb[idx])
+            return targets[0] if len(targets) == 1 else targets
+        return getattr(ufunc, method)(*base, **kwargs)
+
+    def __array_wrap__(self, arr, context=None, return_scalar=False):
+        return numpy.asarray(arr).view(numpy.ndarray)
+
+    def __array_function__(self, func, types, args, kwargs):
+        # numpy functions (dot, tensordot, sum, ...) see and return ordinary object arrays
+        def strip(x):
+            if isinstance(x, RealObjArray):
+                return x.view(numpy.ndarray)
+            if isinstance(x, (list, tuple)):
+                return type(x)(strip(y) for y in x)
+            if isinstance(x, dict):
+                return {k: strip(v) for k, v in x.items()}
+            return x
+        return func(*strip(args), **strip(kwargs))
+
+
+def _real_obj_full(shape, val, dtype):
+    a = _obj_full(shape, val)
+    if MODEL_REAL_DTYPE[0] and dtype is not None:
+        try:
+            if numpy.dtype(dtype).kind == "f":
+                return a.view(RealObjArray)
+        except TypeError:
+            pass
+    return a
+
+
 def p_zeros(shape, dtype=None, order="C", **kw):
     if _is_inexact_dtype(dtype):
-        return _obj_full(shape, SymR(F0))
+        return _real_obj_full(shape, SymR(F0), dtype)
     return _REAL["zeros"](shape, dtype=dtype, order=order, **kw)
 
 
 def p_ones(shape, dtype=None, order="C", **kw):
     if _is_inexact_dtype(dtype):
-        return _obj_full(shape, SymR(F1))
+        return _real_obj_full(shape, SymR(F1), dtype)
     return _REAL["ones"](shape, dtype=dtype, order=order, **kw)
 
 
 def p_empty(shape, dtype=None, order="C", **kw):
     if _is_inexact_dtype(dtype):
-        return _obj_full(shape, SymR(F0))
+        return _real_obj_full(shape, SymR(F0), dtype)
     return _REAL["empty"](shape, dtype=dtype, order=order, **kw)
 
 
